@@ -17,6 +17,7 @@ import (
 	"time"
 
 	"github.com/icon-project/goloop/verifshim/ev"
+	"github.com/icon-project/goloop/verifshim/hist"
 	"github.com/icon-project/goloop/verifshim/opseq"
 )
 
@@ -760,6 +761,9 @@ type c23Case struct {
 	Target string `json:"target,omitempty"` // decode: name of the target type
 	Hex    string `json:"hex,omitempty"`    // decode/any: the input bytes
 	Note   string `json:"note,omitempty"`
+
+	History  []string `json:"history,omitempty"`  // phase "history": names of the calls
+	Expected string   `json:"expected,omitempty"` // phase "history": required result of the last call
 }
 
 type c23Env struct {
@@ -1666,6 +1670,218 @@ func (e *c23Env) encoderHygiene(only int) (cases, failed int) {
 	return
 }
 
+// ===========================================================================
+// History family over BC (pooled encoders and decoders): the result of a call
+// must equal the result of the same call on fresh, never pooled state.
+// ===========================================================================
+
+func c23DecodeRes(c Codec, t reflect.Type, in []byte) string {
+	out := reflect.New(t)
+	var rest []byte
+	var err error
+	if p := ev.Catch(func() { rest, err = c.UnmarshalFromBytes(in, out.Interface()) }); p != "" {
+		return "panic"
+	}
+	if err != nil {
+		return "err"
+	}
+	if to, ok := out.Interface().(*TypedObj); ok {
+		// typed objects hold pointers and interfaces: describe them through DecodeAny
+		var v interface{}
+		var derr error
+		if p := ev.Catch(func() { v, derr = DecodeAny(c23TC{}, to) }); p != "" {
+			return "ok|typed-object-panics-in-DecodeAny|rest=" + hex.EncodeToString(rest)
+		}
+		if derr != nil {
+			return "ok|typed-object-rejected-by-DecodeAny|rest=" + hex.EncodeToString(rest)
+		}
+		return fmt.Sprintf("ok|%#v|rest=%x", v, rest)
+	}
+	return "ok|" + c23ShowV(out.Elem()) + "|rest=" + hex.EncodeToString(rest)
+}
+
+func c23AnyRes(c Codec, in []byte) string {
+	var v interface{}
+	var err error
+	if p := ev.Catch(func() { v, err = UnmarshalAny(c, c23TC{}, in) }); p != "" {
+		return "panic"
+	}
+	if err != nil {
+		return "err"
+	}
+	return fmt.Sprintf("ok|%#v", v)
+}
+
+func c23HistoryCalls(thorough bool) []hist.Call {
+	var calls []hist.Call
+	seen := map[string]bool{}
+	addDecode := func(class string, t reflect.Type, tname string, in []byte) {
+		in = append([]byte{}, in...)
+		name := fmt.Sprintf("Unmarshal(%x -> %s)", in, tname)
+		if seen[name] || len(in) > 80 {
+			return
+		}
+		seen[name] = true
+		calls = append(calls, hist.Call{Name: name, Class: class, Run: func() string { return c23DecodeRes(BC, t, in) }, Want: c23DecodeRes(c23Fresh, t, in), HasWant: true})
+	}
+	addAny := func(class string, in []byte) {
+		in = append([]byte{}, in...)
+		name := fmt.Sprintf("UnmarshalAny(%x)", in)
+		if seen[name] || len(in) > 80 {
+			return
+		}
+		seen[name] = true
+		calls = append(calls, hist.Call{Name: name, Class: class, Run: func() string { return c23AnyRes(BC, in) }, Want: c23AnyRes(c23Fresh, in), HasWant: true})
+	}
+	addMarshal := func(class, name string, v interface{}) {
+		want := "err"
+		if bs, err := func() (bs []byte, err error) {
+			defer func() {
+				if recover() != nil {
+					err = errC23Enc
+				}
+			}()
+			return c23FreshEncode(v)
+		}(); err == nil {
+			want = "ok|" + hex.EncodeToString(bs)
+		}
+		calls = append(calls, hist.Call{Name: "Marshal(" + name + ")", Class: class, Run: func() string {
+			var bs []byte
+			var err error
+			if p := ev.Catch(func() { bs, err = BC.MarshalToBytes(v) }); p != "" || err != nil {
+				return "err"
+			}
+			return "ok|" + hex.EncodeToString(bs)
+		}, Want: want, HasWant: true})
+	}
+	type val struct {
+		name string
+		v    interface{} // pointer to the value
+	}
+	str56 := strings.Repeat("s", 56)
+	vals := []val{
+		{"struct", &c23S3{A: 0x1234, B: []byte("hello")}}, {"int64", new(int64)}, {"negint", func() *int64 { x := int64(-129); return &x }()},
+		{"string", func() *string { x := "hello world"; return &x }()}, {"string56", &str56},
+		{"bytes-nil", new([]byte)}, {"nested", &[][]int16{{1, -1}, nil, {}}}, {"bytes-list", &[][]byte{[]byte("ab"), nil, {}}},
+		{"map", &map[string]uint8{"b": 2, "a": 1}}, {"ptrs", &[]*c23S1{{A: 1}, nil, {A: 255}}}, {"big", new(big.Int).Lsh(big.NewInt(-3), 70)},
+		{"uint64", func() *uint64 { x := uint64(1<<64 - 1); return &x }()},
+	}
+	// valid calls and every truncation of their encodings
+	for _, v := range vals {
+		t := reflect.TypeOf(v.v).Elem()
+		bs, err := c23FreshEncode(v.v)
+		if err != nil {
+			continue
+		}
+		addMarshal("Marshal-valid", v.name, v.v)
+		addDecode("Unmarshal-valid", t, v.name, bs)
+		addDecode("Unmarshal-valid", t, v.name, append(append([]byte{}, bs...), 0x01, 0x02)) // with a remainder
+		for cut := 0; cut < len(bs); cut++ {
+			addDecode("Unmarshal-truncated", t, v.name, bs[:cut])
+		}
+		if n, _, st := c23Parse(bs); st == c23OK && n.List {
+			k := 0
+			c23Structural(n, func(kind string, m c23Node) {
+				k++
+				if thorough || kind == "nil-marker" || kind == "empty-list" || k%5 == 0 {
+					addDecode("Unmarshal-structural", t, v.name, c23Ser(m))
+				}
+			})
+		}
+	}
+	// typed objects, incl. cuts inside an inner typed object
+	typed := []interface{}{
+		map[string]interface{}{"a": []interface{}{}, "b": "x"},
+		map[string]interface{}{"k": map[string]interface{}{"i": []byte{1}, "j": nil}},
+		[]interface{}{"s", []interface{}{true, c23Custom{10, "z"}}, nil},
+		"plain", nil,
+	}
+	tt := reflect.TypeOf(TypedObj{})
+	for _, x := range typed {
+		bs, err := MarshalAny(c23Fresh, c23TC{}, x)
+		if err != nil {
+			continue
+		}
+		addAny("UnmarshalAny-valid", bs)
+		addDecode("Unmarshal-valid", tt, "TypedObj", bs)
+		for cut := 0; cut < len(bs); cut++ {
+			if thorough || cut%2 == 0 {
+				addAny("UnmarshalAny-truncated", bs[:cut])
+			}
+		}
+		if n, _, st := c23Parse(bs); st == c23OK {
+			k := 0
+			c23Structural(n, func(kind string, m c23Node) {
+				k++
+				in := c23Ser(m)
+				// quick: the replacements that cut an item short (empty list / nil marker) and every 4th other mutation
+				if thorough || kind == "empty-list" || kind == "nil-marker" || k%4 == 0 {
+					addDecode("Unmarshal-structural", tt, "TypedObj", in)
+				}
+				if thorough || k%3 == 0 {
+					addAny("UnmarshalAny-structural", in)
+				}
+			})
+		}
+	}
+	// samples of the malformed families of the parallel phase
+	s3 := reflect.TypeOf(c23S3{})
+	bl := reflect.TypeOf([][]byte(nil))
+	ps := reflect.TypeOf((*c23S1)(nil))
+	for i, in := range c23LengthFamily() {
+		if len(in) <= 12 && (i%80 == 0 || (thorough && i%7 == 0)) {
+			addDecode("Unmarshal-length-field", bl, "[][]byte", in)
+			addDecode("Unmarshal-length-field", s3, "struct", in)
+		}
+	}
+	for i, in := range c23NestedFamily() {
+		if len(in) <= 16 && (i%97 == 0 || (thorough && i%29 == 0)) {
+			addDecode("Unmarshal-nested-length-field", bl, "[][]byte", in)
+		}
+	}
+	for _, in := range [][]byte{{0xc3, 0xf8, 0x00, 0x00}, {0xc3, 0xf8, 0x00}, {0xf7, 0xf8, 0x00}, {0xc4, 0xf8, 0x00, 0xff, 0xff}, {}} {
+		addDecode("Unmarshal-nil-marker", ps, "*struct{uint8}", in)
+	}
+	// failing marshals (a few of every kind; the full set is in the encoder-hygiene phase)
+	for i, sh := range c23FailShapes() {
+		if i%97 == 0 || strings.HasPrefix(sh.name, "slice>slice>chan") || strings.HasPrefix(sh.name, "struct>custom-error-after-1") {
+			addMarshal("Marshal-failing", sh.name, sh.v)
+		}
+	}
+	return calls
+}
+
+func (e *c23Env) history() (int, bool) {
+	r := e.r
+	calls := c23HistoryCalls(r.Thorough())
+	var triple []int
+	if r.Thorough() {
+		for i := range calls {
+			if i%40 == 0 {
+				triple = append(triple, i)
+			}
+		}
+	}
+	restore := hist.Pin()
+	defer restore()
+	n, complete := hist.Explore(calls, triple, 8192, r.Expired, func(sig, detail string, names []string, expected string) {
+		r.Violation(sig, detail, c23Case{Phase: "history", History: names, Expected: expected})
+	})
+	r.Eval(n)
+	for i, c := range calls {
+		r.Nontrivial(fmt.Sprintf("history|%d|%s", i, c.Name))
+	}
+	r.Set("history_alphabet", len(calls))
+	cls := map[string]int{}
+	for _, c := range calls {
+		cls[c.Class]++
+	}
+	r.Set("history_alphabet_classes", fmt.Sprint(cls))
+	r.Set("history_triple_alphabet", len(triple))
+	r.Set("histories", n)
+	return n, complete
+}
+
 // ---- batching ----
 
 type c23Batch struct {
@@ -1839,7 +2055,7 @@ func c23IntFamily() [][]byte {
 
 func TestVerifC23(t *testing.T) {
 	r := ev.Start(t, "C23", "exploration")
-	r.Rule("(A) round trip: typed value grammar built with reflect — leaves: int8/16/32/64/int, uint8/16/32/64/uint at every byte-length boundary, bool, string and []byte of length {0,1,2,55,56,255,256} incl. single bytes 00/7f/80/ff and nil []byte, [4]byte, [1]byte, *big.Int (nil,0,±1,±127..129,±2^64,±2^255) and big.Int fields; constructors {pointer, slice, [2]array, map[string], 1-field struct} applied to every leaf with all leaf values (depth 1), constructor∘constructor over every leaf with representative values (depth 2), a third constructor over depth-2 shapes (quick every 4th shape, thorough all; pairwise values), integer-keyed maps, every ordered pair of leaf types as a 2-field struct, 3-field structs over 7 leaf types, 2-field structs of depth-1 shapes. (B) decoder robustness: every byte string of length<=2 (+ 3-byte strings: quick first byte {b8,c3,f7,f8} x 17 boundary second bytes x all third bytes, thorough 15 boundary first bytes x all 65536 tails) into 24 target types and UnmarshalAny; every single-byte substitution (24 boundary values; thorough all 256 values for encodings of at most 10 bytes) and truncation of valid encodings of at most 24 (thorough 32) bytes into their own type; every structural mutation of those encodings (one sub-item replaced by the nil marker / empty list / empty bytes / 00, deleted, or duplicated); length-field family (b8..bf / f8..ff headers x 18 claimed sizes x payload lengths {0,1,claim-1,claim,claim+1} x 4 fills, also nested in a list); nested length-field family (a long-form list header around a long-form bytes or list header, and list{list{bytes}}, every combination of 9 claimed sizes per header from 56 to 2^64-1 in minimal and 8-byte form, with 0/1/5 trailing bytes, optionally after one well-formed element) into every target, plus a sequential per-case allocation measurement of both families through UnmarshalFromBytes (bound O(input)) and through the stream decoder (bound MaxSizeForBytes); integer family (byte strings of length 0..9 at the sign/width boundaries) into every integer type and bool. (B') pool hygiene, sequential on one P: after every accepted input of the structural, length-field, nested length-field and <=2-byte families (list-reading targets) the pooled BC.UnmarshalFromBytes must still decode an unrelated valid message. (B'') encoder pool hygiene, sequential on one P: every failing marshal shape (12 unencodable things — chan, func, float, complex, custom RLPEncodeSelf failing before / after 0..2 list elements or panicking, failing MarshalRLP / MarshalBinary, map with float key — at top level and nested at depth 1..3 in every slice/struct/map nesting after 0..2 well-formed elements) followed directly, or with a failing decode before / in between, by BC.MarshalToBytes of 7 well-formed values twice: the bytes must equal those of a brand-new unpooled encoder and decode back. (C) map determinism: every insertion order of up to 4 (thorough 6) keys. distinct_nontrivial = distinct (type, encoding) resp. (target, input) pairs")
+	r.Rule("(A) round trip: typed value grammar built with reflect — leaves: int8/16/32/64/int, uint8/16/32/64/uint at every byte-length boundary, bool, string and []byte of length {0,1,2,55,56,255,256} incl. single bytes 00/7f/80/ff and nil []byte, [4]byte, [1]byte, *big.Int (nil,0,±1,±127..129,±2^64,±2^255) and big.Int fields; constructors {pointer, slice, [2]array, map[string], 1-field struct} applied to every leaf with all leaf values (depth 1), constructor∘constructor over every leaf with representative values (depth 2), a third constructor over depth-2 shapes (quick every 4th shape, thorough all; pairwise values), integer-keyed maps, every ordered pair of leaf types as a 2-field struct, 3-field structs over 7 leaf types, 2-field structs of depth-1 shapes. (B) decoder robustness: every byte string of length<=2 (+ 3-byte strings: quick first byte {b8,c3,f7,f8} x 17 boundary second bytes x all third bytes, thorough 15 boundary first bytes x all 65536 tails) into 24 target types and UnmarshalAny; every single-byte substitution (24 boundary values; thorough all 256 values for encodings of at most 10 bytes) and truncation of valid encodings of at most 24 (thorough 32) bytes into their own type; every structural mutation of those encodings (one sub-item replaced by the nil marker / empty list / empty bytes / 00, deleted, or duplicated); length-field family (b8..bf / f8..ff headers x 18 claimed sizes x payload lengths {0,1,claim-1,claim,claim+1} x 4 fills, also nested in a list); nested length-field family (a long-form list header around a long-form bytes or list header, and list{list{bytes}}, every combination of 9 claimed sizes per header from 56 to 2^64-1 in minimal and 8-byte form, with 0/1/5 trailing bytes, optionally after one well-formed element) into every target, plus a sequential per-case allocation measurement of both families through UnmarshalFromBytes (bound O(input)) and through the stream decoder (bound MaxSizeForBytes); integer family (byte strings of length 0..9 at the sign/width boundaries) into every integer type and bool. (B') pool hygiene, sequential on one P: after every accepted input of the structural, length-field, nested length-field and <=2-byte families (list-reading targets) the pooled BC.UnmarshalFromBytes must still decode an unrelated valid message. (B'') encoder pool hygiene, sequential on one P: every failing marshal shape (12 unencodable things — chan, func, float, complex, custom RLPEncodeSelf failing before / after 0..2 list elements or panicking, failing MarshalRLP / MarshalBinary, map with float key — at top level and nested at depth 1..3 in every slice/struct/map nesting after 0..2 well-formed elements) followed directly, or with a failing decode before / in between, by BC.MarshalToBytes of 7 well-formed values twice: the bytes must equal those of a brand-new unpooled encoder and decode back. (H) history family on one pinned goroutine (single P, collector off inside a history): every ordered pair (thorough: all mutations instead of a stated subset, and triples over every 40th call) of calls from an alphabet of pooled BC calls — valid marshals and unmarshals of 12 value shapes and 5 typed objects, every truncation and every structural mutation of their encodings (cuts inside inner typed objects included) into their own type / TypedObj / UnmarshalAny, samples of the length-field, nested length-field and nil-marker families, failing marshals — the last result must equal the result of the same call on a fresh, never pooled encoder/decoder. The sequential decoder-hygiene phase also follows REJECTED inputs with the canary and covers every structural mutation of typed-object encodings. (C) map determinism: every insertion order of up to 4 (thorough 6) keys. distinct_nontrivial = distinct (type, encoding) resp. (target, input) pairs")
 	r.Assume("a pointer to a nil slice/map/pointer has the same encoding (f8 00) as a nil pointer: the format cannot keep them apart, the decoder returns the former, and the comparison treats the two as one value",
 		"interface-typed fields and ordered TypedDict.Keys are encode-only resp. order-preserving by design and are not compared structurally (typed objects are compared through UnmarshalAny)",
 		"the independent RLP reader in the harness (with goloop's f8 00 = nil extension) is trusted for sizes and structure")
@@ -1929,6 +2145,23 @@ func TestVerifC23(t *testing.T) {
 				r.Eval(1)
 			}
 			runtime.GOMAXPROCS(prev)
+		case "history":
+			calls := c23HistoryCalls(true)
+			byName := map[string]int{}
+			for i, cl := range calls {
+				byName[cl.Name] = i
+			}
+			var idx []int
+			for _, n := range c.History {
+				idx = append(idx, byName[n])
+			}
+			restore := hist.Pin()
+			got := hist.Sequence(calls, idx)
+			restore()
+			r.Eval(1)
+			if got != c.Expected {
+				r.Violation("result-depends-on-history:replay", fmt.Sprintf("history %v: last call returned %s, expected %s", c.History, got, c.Expected), c)
+			}
 		case "enchyg":
 			prev := runtime.GOMAXPROCS(1)
 			e.encoderHygiene(int(c.Index))
@@ -2220,8 +2453,14 @@ func TestVerifC23(t *testing.T) {
 		run := func(tg c23Target, in []byte, family string) {
 			out := reflect.New(tg.t)
 			var err error
-			if p := ev.Catch(func() { _, err = BC.UnmarshalFromBytes(in, out.Interface()) }); p != "" || err != nil {
-				return // panics are reported by the parallel phase; a failed call does not return its decoder to the pool
+			if p := ev.Catch(func() { _, err = BC.UnmarshalFromBytes(in, out.Interface()) }); p != "" {
+				return // panics are reported by the parallel phase
+			}
+			// the canary follows rejected inputs as well: whether a failed call returns
+			// its decoder to the pool is an implementation choice, the next result must not depend on it
+			outcome := "returned nil error"
+			if err != nil {
+				outcome = "was rejected (" + err.Error() + ")"
 			}
 			r.Eval(1)
 			e.canaries++
@@ -2232,7 +2471,7 @@ func TestVerifC23(t *testing.T) {
 				if n, _, st := c23Parse(in); (st == c23OK || st == c23BadKids) && c23NilInStructField(tg.t, n) {
 					sig = "pooled-decoder-poisoned:nil-marker-in-struct-field"
 				}
-				r.Violation(sig, fmt.Sprintf("after BC.UnmarshalFromBytes(%s) into %s returned nil error, the next call BC.UnmarshalFromBytes(%x) of an unrelated valid message gave %+v err=%v", c23Hex(in), tg.name, canaryBytes, got, err),
+				r.Violation(sig, fmt.Sprintf("after BC.UnmarshalFromBytes(%s) into %s %s, the next call BC.UnmarshalFromBytes(%x) of an unrelated valid message gave %+v err=%v", c23Hex(in), tg.name, outcome, canaryBytes, got, err),
 					c23Case{Phase: "hygiene", Target: tg.name, Hex: hex.EncodeToString(in), Note: family})
 				BC.UnmarshalFromBytes(canaryBytes, &got) // make sure a clean decoder is back in the pool
 			}
@@ -2240,6 +2479,25 @@ func TestVerifC23(t *testing.T) {
 		for _, h := range hyg {
 			run(h.tg, h.in, "structural")
 		}
+		// typed objects: every structural mutation of the encodings of the nested
+		// typed values (cuts inside an inner typed object included)
+		typedTg := tgByName["TypedObj"]
+		nTyped := 0
+		for _, x := range c23AnyValues(2) {
+			bs, err := MarshalAny(c23Fresh, c23TC{}, x)
+			if err != nil || len(bs) > 48 {
+				continue
+			}
+			n, _, st := c23Parse(bs)
+			if st != c23OK {
+				continue
+			}
+			c23Structural(n, func(kind string, m c23Node) {
+				nTyped++
+				run(typedTg, c23Ser(m), "typed-structural-"+kind)
+			})
+		}
+		r.Set("typed_structural_mutations", nTyped)
 		// only targets that open a list reader can leave one behind
 		var listTargets []c23Target
 		for _, tg := range targets {
@@ -2277,6 +2535,10 @@ func TestVerifC23(t *testing.T) {
 		r.Set("encoder_hygiene_cases", encCases)
 		r.Set("encoder_hygiene_failing_marshals", encFailed)
 		r.Sanity(encCases > 1000 && encFailed*10 > encCases*9, "encoder hygiene: %d cases, only %d failing marshals", encCases, encFailed)
+		// history family
+		if _, complete := e.history(); !complete {
+			exhaustive = false
+		}
 	}
 
 	phase("pool_hygiene")
